@@ -709,6 +709,22 @@ func SignerKeyName(a Assignment) string {
 	}
 }
 
+// ModelExtension returns the encoded Extension element(s) that the model
+// emits for an alternative of an extension field, e.g. ("poison","critical")
+// or ("sct","valid"); nil for "absent". It panics on unknown names.
+func ModelExtension(field, alt string) []byte {
+	a := Default().With(field, alt)
+	encs, ok := extEnc[field]
+	if !ok {
+		panic("xgen: " + field + " is not an extension field")
+	}
+	return encs[a[fieldIdx[field]]]
+}
+
+// AssembleCert wraps a TBSCertificate, an AlgorithmIdentifier and raw
+// signature bytes into a Certificate.
+func AssembleCert(tbs, sigAlg, sig []byte) []byte { return Seq(tbs, sigAlg, BitString(sig)) }
+
 // Encode returns the DER of the certificate described by a.
 func Encode(a Assignment) []byte { return EncodeParts(a).Cert }
 
